@@ -49,6 +49,17 @@
 (* The transcription state is advanced the same way (previous QPS = tokens *)
 (* admitted in the shifted 1 s view) and reported with a mismatch.         *)
 (*                                                                         *)
+(* STATISTIC INTERVAL (new.si = StatIntervalInMs, absent / 0 = 1000): the  *)
+(* threshold counts per statistic window of si ms.  "The window" in E1, E2 *)
+(* E3 is the window the rule's statistic reads (buckets of                 *)
+(* WarmUpOps!BucketLen, span si); E2 still speaks of the first SECOND      *)
+(* after IdleEnough idle seconds (the calculator synchronises per second;  *)
+(* IdleEnough covers a window longer than a second); in E3 a second is     *)
+(* saturated when every statistic window that begins in it refused        *)
+(* something (si < 1000 divides 1000; no "first half" condition: a single  *)
+(* bucket does not slide).  Transcription: previous-window QPS = tokens *  *)
+(* 1000 / si; none for the single-bucket private statistic (si < 500).     *)
+(*                                                                         *)
 (* RELOADS (flow.LoadRules / LoadRulesOfResource in the middle of the      *)
 (* history):                                                               *)
 (*   reload t, tn, td, p, c, cb, q   the rule is replaced at t (ms)        *)
@@ -98,6 +109,9 @@ VARIABLES
 
 tvars == <<l, now, cfg, ref, secs, sos, stored, lastSync, la, dfrom, dlast, eref, ep, g, failed, drifted>>
 
+BLc == BucketLen(cfg)        \* the statistic of the rule in force: bucket length and window
+IVc == Si(cfg)
+WPS == IF IVc < 1000 THEN 1000 \div IVc ELSE 1        \* statistic windows that begin in a second
 Ev == Trace[l]
 Has(r, f) == f \in DOMAIN r
 IsEvent(op) == l <= Len(Trace) /\ Ev.op = op /\ l' = l + 1
@@ -111,11 +125,11 @@ Drift(ok, expected) ==
     ELSE /\ drifted' = TRUE
          /\ PrintT("DRIFT " \o ToString(g.tr) \o " " \o ToString(l) \o " " \o ToJson(expected))
 
-NoSec == [req1 |-> 0, blk |-> 0, adm |-> 0]
+NoSec == [req1 |-> 0, blk |-> 0, adm |-> 0, bw |-> {}]        \* (bw: the windows of the second that refused something)
 SecAt(s) == IF s \in DOMAIN secs THEN secs[s] ELSE NoSec
 \* number of consecutive seconds s, s - 1000, ... that satisfy P (at most lim)
 Is(x, kind) == CASE kind = "idle"   -> x.req1 = 0 /\ x.blk = 0 /\ x.adm = 0
-                  [] kind = "sat"    -> x.blk > 0
+                  [] kind = "sat"    -> x.blk > 0 /\ (IVc >= 1000 \/ Cardinality(x.bw) >= WPS)
                   [] kind = "starve" -> x.req1 > 0 /\ x.adm = 0
 RECURSIVE RunBackLo(_, _, _, _)
 RunBackLo(s, lim, kind, lo) == IF lim = 0 \/ s < lo \/ ~Is(SecAt(s), kind) THEN 0 ELSE 1 + RunBackLo(s - 1000, lim - 1, kind, lo)
@@ -137,7 +151,8 @@ TNew ==
     /\ IsEvent("new")
     /\ now' = Ev.t /\ Ev.t > 0
     /\ cfg' = [tn |-> Ev.tn, td |-> Ev.td, p |-> Ev.p, c |-> Ev.c,
-               cb |-> IF Has(Ev, "cb") THEN Ev.cb ELSE 0, q |-> IF Has(Ev, "q") THEN Ev.q ELSE 0]
+               cb |-> IF Has(Ev, "cb") THEN Ev.cb ELSE 0, q |-> IF Has(Ev, "q") THEN Ev.q ELSE 0,
+               si |-> IF Has(Ev, "si") /\ Ev.si > 0 THEN Ev.si ELSE 1000]
     /\ ref' = << >> /\ secs' = << >> /\ sos' = TRUE
     /\ stored' = 0 /\ lastSync' = -1
     /\ la' = -1 /\ dfrom' = -1 /\ dlast' = -1
@@ -149,18 +164,19 @@ TTick ==
     /\ IsEvent("tick")
     /\ Ev.t >= now
     /\ now' = Ev.t
-    /\ ref' = Prune(ref, BL, 2 * IV, Ev.t)
-    /\ eref' = Prune(eref, BL, 2 * IV, Ev.t)
+    /\ ref' = Prune(ref, BLc, 2 * IVc, Ev.t)
+    /\ eref' = Prune(eref, BLc, 2 * IVc, Ev.t)
     \* (fold the progress before old seconds are forgotten)
     /\ ep' = [ep EXCEPT !.ju = JuAt(Align(Ev.t, 1000)), !.js = Align(Ev.t, 1000), !.ra = RaAt(Align(Ev.t, 1000))]
-    /\ secs' = [s \in { x \in DOMAIN secs : x >= Align(Ev.t, 1000) - 1000 * (4 * cfg.p + 12) } |-> secs[s]]
+    /\ secs' = [s \in { x \in DOMAIN secs : x >= Align(Ev.t, 1000) - 1000 * (4 * cfg.p + 12 + WinSecs(cfg)) } |-> secs[s]]
     /\ UNCHANGED <<cfg, sos, stored, lastSync, la, dfrom, dlast, g, failed, drifted>>
 
 \* the rule is replaced (LoadRules / LoadRulesOfResource)
 TReload ==
     /\ IsEvent("reload")
     /\ Ev.t >= now /\ now' = Ev.t
-    /\ LET c2 == [tn |-> Ev.tn, td |-> Ev.td, p |-> Ev.p, c |-> Ev.c, cb |-> Ev.cb, q |-> Ev.q]
+    /\ LET c2 == [tn |-> Ev.tn, td |-> Ev.td, p |-> Ev.p, c |-> Ev.c, cb |-> Ev.cb, q |-> Ev.q,
+                  si |-> IF Has(Ev, "si") /\ Ev.si > 0 THEN Ev.si ELSE 1000]
            S  == Align(Ev.t, 1000)
            ju == JuAt(S)
            \* the demand of the second before the reload counts for the new rule as well
@@ -182,16 +198,16 @@ TReq ==
     /\ ~Throttled(cfg)
     /\ LET S    == Align(now, 1000)
            b    == Ev.b
-           cur  == RefSum(eref, BL, now, IV, "pass")            \* tokens in the aligned window right now (admitted under the rule in force)
-           curAll == RefSum(ref, BL, now, IV, "pass")           \* ... all of them: what the statistic of the rule holds
+           cur  == RefSum(eref, BLc, now, IVc, "pass")            \* tokens in the aligned window right now (admitted under the rule in force)
+           curAll == RefSum(ref, BLc, now, IVc, "pass")           \* ... all of them: what the statistic of the rule holds
            \* --- transcription ---
            sync == S > lastSync
-           prev == RefPrevSum(ref, BL, now, BL, IV, "pass")
+           prev == RefPrevSum(ref, BLc, now, BLc, IVc, "pass")
            gap  == IF lastSync < 0 THEN -1 ELSE (S - lastSync) \div 1000
-           st   == IF sync THEN Sync(cfg, stored, gap, prev) ELSE stored
+           st   == IF sync THEN SyncQ(cfg, stored, gap, Qps(cfg, prev)) ELSE stored
            al   == Allowed(cfg, st)
            \* --- envelope inputs ---
-           sos2 == sos /\ (now % 1000 < 500)
+           sos2 == sos /\ (IVc < 1000 \/ now % 1000 < 500)
            idleRun == RunBack(S - 1000, IdleEnough(cfg), "idle")
            cold == idleRun >= IdleEnough(cfg) \/ (\A s \in DOMAIN secs : s >= S)      \* long idle, or nothing before this second
            satRun == RunBack(S - 1000, WarmEnough(cfg), "sat")
@@ -202,27 +218,29 @@ TReq ==
            E3 == ~(sos2 /\ satRun >= WarmEnough(cfg) /\ (cur + b) * cfg.td <= cfg.tn)
            E4 == ~(b = 1 /\ cfg.tn >= cfg.td /\ starveRun >= StarveBound(cfg))
            cap == ProgCap(cfg, JuAt(S), LC, RaAt(S))
-           E5 == ep.n > 0 => (cur + b) <= cap
+           E5 == (ep.n > 0 /\ IVc = 1000) => (cur + b) <= cap
            why == IF Ev.ok THEN (IF ~E1 THEN "E1-above-threshold" ELSE IF ~E2 THEN "E2-not-cold-after-idle"
                                  ELSE "E5-warmer-than-the-history-justifies")
                            ELSE (IF ~E3 THEN "E3-not-warm-after-sustained-demand" ELSE "E4-starved")
            mine == [req1 |-> me.req1 + (IF b = 1 THEN 1 ELSE 0),
                     blk  |-> me.blk + (IF Ev.ok THEN 0 ELSE 1),
-                    adm  |-> me.adm + (IF Ev.ok THEN b ELSE 0)]
+                    adm  |-> me.adm + (IF Ev.ok THEN b ELSE 0),
+                    bw   |-> IF Ev.ok THEN me.bw ELSE me.bw \cup {(now % 1000) \div IVc}]
        IN
        /\ Judge(IF Ev.ok THEN E1 /\ E2 /\ E5 ELSE E3 /\ E4,
                 [why |-> why, window |-> cur, b |-> b, T |-> <<cfg.tn, cfg.td>>, coldcap |-> ColdCap(cfg), cold |-> cold,
                  satRun |-> satRun, starveRun |-> starveRun, model_allowed |-> <<al.n, al.d>>, model_tokens |-> st]
                 @@ (IF ep.n > 0 THEN [epoch |-> ep.n, rule |-> <<cfg.tn, cfg.td, cfg.p, cfg.c, cfg.cb>>, progcap |-> cap,
                                       progress |-> <<JuAt(S), LC>>, carried_rate |-> <<RaAt(S).n, RaAt(S).d>>] ELSE << >>))
-       /\ Drift(IF ~Defined(al) THEN Ev.ok
+       /\ Drift(IF IVc < 500 THEN TRUE            \* (private single-bucket statistic: no transcription)
+                ELSE IF ~Defined(al) THEN Ev.ok
                 ELSE IF OnEdge(al, curAll, b) THEN TRUE
                 ELSE Ev.ok = ~Blocks(al, curAll, b),
                 [window |-> curAll, b |-> b, model_allowed |-> <<al.n, al.d>>, model_tokens |-> st, prev |-> prev, gap |-> gap])
        /\ stored' = st
        /\ lastSync' = IF sync THEN S ELSE lastSync
-       /\ ref' = IF Ev.ok THEN RefAdd(ref, PK, BL, now, "pass", b) ELSE ref
-       /\ eref' = IF Ev.ok THEN RefAdd(eref, PK, BL, now, "pass", b) ELSE eref
+       /\ ref' = IF Ev.ok THEN RefAdd(ref, PK, BLc, now, "pass", b) ELSE ref
+       /\ eref' = IF Ev.ok THEN RefAdd(eref, PK, BLc, now, "pass", b) ELSE eref
        /\ secs' = [s \in DOMAIN secs \cup {S} |-> IF s = S THEN mine ELSE secs[s]]
        /\ sos' = sos2
     /\ UNCHANGED <<now, cfg, la, dfrom, dlast, ep, g>>
@@ -239,7 +257,7 @@ SatRunT(df, t) == IF df >= 0 /\ SecUs(t) >= UpUs(df) THEN (SecUs(t) - UpUs(df)) 
 Cont(t) == cfg.q > 0 /\ dlast >= 0 /\ t - dlast <= DenseGap
 \* transcription: stored tokens after the sync executed by a request at tms (milliseconds)
 PSync(tms) == LET S == Align(tms, 1000)
-                  prev == RefPrevSum(ref, BL, tms, BL, IV, "pass")
+                  prev == RefPrevSum(ref, BLc, tms, BLc, IVc, "pass")
                   gap  == IF lastSync < 0 THEN -1 ELSE (S - lastSync) \div 1000
               IN  IF S > lastSync THEN Sync(cfg, stored, gap, prev) ELSE stored
 ColdAt(S) == RunBack(S - 1000, IdleEnough(cfg), "idle") >= IdleEnough(cfg) \/ (\A s \in DOMAIN secs : s >= S)
@@ -277,7 +295,7 @@ TPReq ==
                            ELSE (IF ~E3r THEN "E3-not-warm-after-sustained-demand" ELSE "E4-starved")
            upd(s) == [req1 |-> SecAt(s).req1 + (IF s = S THEN 1 ELSE 0),
                       blk  |-> SecAt(s).blk + (IF s = S /\ waited THEN 1 ELSE 0),
-                      adm  |-> SecAt(s).adm + (IF s = SA /\ Ev.ok THEN 1 ELSE 0)]
+                      adm  |-> SecAt(s).adm + (IF s = SA /\ Ev.ok THEN 1 ELSE 0), bw |-> SecAt(s).bw]
        IN
        /\ Ev.w >= 0 /\ tms >= now
        /\ Judge(IF Ev.ok THEN E1 /\ E2 /\ E5 /\ E3a ELSE E3r /\ E4,
@@ -288,12 +306,12 @@ TPReq ==
                                       progress |-> <<JuAt(SA), LC>>] ELSE << >>))
        /\ stored' = st
        /\ lastSync' = Max2(lastSync, S)
-       /\ ref' = IF Ev.ok THEN RefAdd(ref, PK, BL, tams, "pass", 1) ELSE ref
+       /\ ref' = IF Ev.ok THEN RefAdd(ref, PK, BLc, tams, "pass", 1) ELSE ref
        /\ secs' = [s \in DOMAIN secs \cup {S} \cup (IF Ev.ok THEN {SA} ELSE {}) |-> IF s \in {S, SA} THEN upd(s) ELSE secs[s]]
        /\ la' = IF Ev.ok THEN ta ELSE la
        /\ dfrom' = df
        /\ dlast' = IF waited THEN (IF Ev.ok THEN ta ELSE t) ELSE (IF onTime THEN t ELSE -1)
-       /\ eref' = IF Ev.ok THEN RefAdd(eref, PK, BL, tams, "pass", 1) ELSE eref
+       /\ eref' = IF Ev.ok THEN RefAdd(eref, PK, BLc, tams, "pass", 1) ELSE eref
     /\ UNCHANGED <<now, cfg, sos, ep, g, drifted>>
 
 TPRej ==
@@ -313,7 +331,7 @@ TPRej ==
            starveRun == StarveAt(S)
            E3r == warm => (cfg.tn < cfg.td \/ (la >= 0 /\ Within(cfg, t1 - la)))
            E4 == ~(cfg.tn >= cfg.td /\ starveRun >= StarveBound(cfg))
-           mine == [req1 |-> SecAt(S).req1 + Ev.n, blk |-> SecAt(S).blk + Ev.n, adm |-> SecAt(S).adm]
+           mine == [req1 |-> SecAt(S).req1 + Ev.n, blk |-> SecAt(S).blk + Ev.n, adm |-> SecAt(S).adm, bw |-> SecAt(S).bw]
        IN
        /\ Ev.n >= 1 /\ t1 >= t0 /\ tms >= now /\ Align(t1 \div 1000, 1000) = S
        /\ Judge(E3r /\ E4,
@@ -328,7 +346,7 @@ TPRej ==
        /\ dlast' = t1
     /\ UNCHANGED <<now, cfg, ref, sos, la, eref, ep, g, drifted>>
 
-TInit == /\ l = 1 /\ now = 0 /\ cfg = [tn |-> 1, td |-> 1, p |-> 1, c |-> 3, cb |-> 0, q |-> 0] /\ ref = << >> /\ secs = << >> /\ sos = TRUE
+TInit == /\ l = 1 /\ now = 0 /\ cfg = [tn |-> 1, td |-> 1, p |-> 1, c |-> 3, cb |-> 0, q |-> 0, si |-> 1000] /\ ref = << >> /\ secs = << >> /\ sos = TRUE
          /\ stored = 0 /\ lastSync = -1 /\ la = -1 /\ dfrom = -1 /\ dlast = -1 /\ eref = << >> /\ ep = NoEpoch
          /\ g = [tr |-> 0] /\ failed = FALSE /\ drifted = FALSE
 TNext == TNew \/ TTick \/ TReload \/ TReq \/ TPReq \/ TPRej
